@@ -26,7 +26,7 @@ import vspec   # noqa: E402
 import gen     # noqa: E402
 
 REPO = os.environ.get('VERIF_REPO', '/repo')
-GEN_DIR = os.path.join(ROOT, 'gen')
+GEN_DIR = os.path.join(ROOT, 'gen', 'p%d' % os.getpid())   # per process: checks may run concurrently
 VERUS = shutil.which('verus') or '/usr/local/bin/verus'
 
 VF_MESSAGES = [
@@ -446,4 +446,9 @@ def print_unit(r, verbose=False):
 
 
 if __name__ == '__main__':
-    sys.exit(main(sys.argv[1:]))
+    try:
+        rc = main(sys.argv[1:])
+    finally:
+        if not os.environ.get('VERIF_KEEP_GEN'):
+            shutil.rmtree(GEN_DIR, ignore_errors=True)
+    sys.exit(rc)
